@@ -14,7 +14,11 @@ package udpsrv
 //     completed its done signal by the time Serve has returned;
 //   - keepalive: WithKeepAlive on the server, optionally a server-initiated NewConn before the peer's
 //     first datagram; a peer that goes silent is closed by the monitor only after at least maxRetries
-//     pings went out to it.
+//     pings went out to it;
+//   - idle: WithInactivityMonitor (the callback closes the connection, as the default one does); the
+//     peer is served, stays silent for longer than the inactivity period and speaks again before any
+//     housekeeping tick: the datagram that finds the expired entry is served by its replacement -
+//     answered once, handled once, and announced as a new connection.
 
 import (
 	"bytes"
@@ -41,7 +45,7 @@ import (
 )
 
 type Scenario struct {
-	Mode         string `json:"mode"` // twolocal | closed | keepalive
+	Mode         string `json:"mode"` // twolocal | closed | keepalive | idle
 	N            int    `json:"n"`    // twolocal: message pairs; closed: close/again rounds
 	SameMID      bool   `json:"sameMID"`
 	Con          bool   `json:"con"`
@@ -102,6 +106,9 @@ func execOnce(sc Scenario) *evid.Failure {
 			mu.Unlock()
 			_ = cc.Close()
 		}))
+	}
+	if sc.Mode == "idle" {
+		opts = append(opts, options.WithInactivityMonitor(period, func(cc *udpClient.Conn) { _ = cc.Close() }))
 	}
 	s := udp.NewServer(opts...)
 	serveDone := make(chan error, 1)
@@ -251,6 +258,32 @@ func execOnce(sc Scenario) *evid.Failure {
 				return evid.Failf("udpserver/on-close-count", sc, "the on-close callback of connection %d of %d (%s) ran %d times after Stop, want exactly once", i, len(conns), c.remote, c.onClose)
 			}
 		}
+	case "idle":
+		for k := 0; k < sc.N; k++ {
+			body := fmt.Sprintf("idle%d", k)
+			_, _ = raw.WriteToUDP(peer.Datagram(request(600+k, byte(k), body)), dst1)
+			got := read(150 * time.Millisecond) // longer than the inactivity period, and no tick
+			echo := 0
+			for _, r := range got {
+				if string(r.m.Payload) == "echo:"+body {
+					echo++
+				}
+			}
+			mu.Lock()
+			cnt, nconn := 0, len(conns)
+			for _, h := range handled {
+				if h == body {
+					cnt++
+				}
+			}
+			mu.Unlock()
+			if cnt != 1 || echo != 1 {
+				return evid.Failf("udpserver/request-after-idle-period-lost", sc, "request %q (number %d from this peer, each sent after more than one inactivity period of silence and before any tick) reached the handler %d times and was answered %d times, want once each", body, k+1, cnt, echo)
+			}
+			if nconn != k+1 {
+				return evid.Failf("udpserver/expired-entry-not-replaced", sc, "after request %d (each after more than one inactivity period of silence) the server had announced %d connections, want %d: the datagram that finds an expired entry belongs to its replacement", k+1, nconn, k+1)
+			}
+		}
 	case "keepalive":
 		if sc.NewConnFirst {
 			if _, err := s.NewConn(raw.LocalAddr().(*net.UDPAddr)); err != nil {
@@ -367,6 +400,8 @@ func Gen(modes []string) func(t *rapid.T) Scenario {
 			sc.N, sc.SameMID = rapid.IntRange(1, 4).Draw(t, "n"), rapid.IntRange(0, 3).Draw(t, "samemid") > 0
 		case "closed":
 			sc.N = rapid.IntRange(1, 3).Draw(t, "n")
+		case "idle":
+			sc.N = rapid.IntRange(2, 4).Draw(t, "n")
 		case "keepalive":
 			sc.MaxRetries, sc.NewConnFirst = rapid.IntRange(2, 3).Draw(t, "retries"), rapid.Bool().Draw(t, "newconn")
 			sc.Neighbour = rapid.Bool().Draw(t, "neighbour")
@@ -388,4 +423,4 @@ func Engine(r *evid.Run, modes []string, quick, thorough int) evid.Engine {
 }
 
 // Rule describes the engine for the evidence files.
-const Rule = "udpserver: the loopback udp/server behind a wildcard-bound listener with a hand-driven tick (real sockets, real time; a failure counts only if it reproduces three times in a row): twolocal - one remote socket talking to two local addresses is two logical connections (equal message IDs reach the handler twice, each answered from the address it was sent to); closed - a handler closes its own connection and the peer sends again before any tick: every connection ever reported runs its on-close callback exactly once and completes its done signal by the time Serve returned; keepalive - WithKeepAlive with an optional server-initiated NewConn first: a silent peer is closed only after pings went out to it in at least maxRetries ticks, and a second peer of the same server that answers every ping is not closed"
+const Rule = "udpserver: the loopback udp/server behind a wildcard-bound listener with a hand-driven tick (real sockets, real time; a failure counts only if it reproduces three times in a row): twolocal - one remote socket talking to two local addresses is two logical connections (equal message IDs reach the handler twice, each answered from the address it was sent to); closed - a handler closes its own connection and the peer sends again before any tick: every connection ever reported runs its on-close callback exactly once and completes its done signal by the time Serve returned; keepalive - WithKeepAlive with an optional server-initiated NewConn first: a silent peer is closed only after pings went out to it in at least maxRetries ticks, and a second peer of the same server that answers every ping is not closed; idle - WithInactivityMonitor whose callback closes: a peer that speaks again after more than one period of silence and before any tick is answered once, handled once, by a newly announced connection"
